@@ -46,22 +46,31 @@ func (e *c18Est) RelayFeePerKW() chainfee.SatPerKWeight { return e.relay }
 func c18FeeFnConfig() {
 	vMerge("(*github.com/lightningnetwork/lnd/sweep.LinearFeeFunction).feeRateAtPosition")
 	vMerge("github.com/btcsuite/btcd/btcutil/v2.round")
-	vOverflow("github.com/lightningnetwork/lnd/sweep.NewLinearFeeFunction")
-	vOverflow("(*github.com/lightningnetwork/lnd/sweep.LinearFeeFunction).feeRateAtPosition")
 	vOverflow("(*github.com/lightningnetwork/lnd/sweep.LinearFeeFunction).IncreaseFeeRate")
-	vOverflow("(*github.com/lightningnetwork/lnd/sweep.LinearFeeFunction).Increment")
-	vOverflow("(github.com/btcsuite/btcd/btcutil/v2.Amount).MulF64")
-	vOverflow("github.com/btcsuite/btcd/btcutil/v2.round")
 	vOverflow("github.com/lightningnetwork/lnd/sweep.calcCurrentConfTarget")
 	vAssumption("fee rates (ceiling, caller-supplied start) in [0, 2^40) sat/kw; estimator and relay-floor answers any non-negative int64")
 	vAssumption("fee-function width and position are concrete per path (case split); float64 encoded bit-precisely (RNE, Go conversions)")
 }
 
-// c18ConfTargets lists the conf targets the construction entry is split over.
-// quick: the small widths, the values around chainfee.MaxBlockTarget and two
-// large ones; thorough: additionally every conf target up to C18_NEW_W+1.
+// c18Inv is the state invariant of a LinearFeeFunction. The construction
+// entries prove it for every fee function the real constructor returns; the
+// step/kernel entries assume exactly this and nothing else about the state.
+//
+//	0 <= start <= end < 2^40, 0 <= delta < 2^50 (delta = (end-start)*1000/width
+//	<= 2^40*1000), position <= width+1, and the current rate is the rate at
+//	the current position.
+func c18Inv(l *LinearFeeFunction) bool {
+	return l.startingFeeRate >= 0 && l.startingFeeRate <= l.endingFeeRate &&
+		int64(l.endingFeeRate) < c18MaxRate &&
+		int64(l.deltaFeeRate) >= 0 && int64(l.deltaFeeRate) < 1<<50 &&
+		l.position <= l.width+1
+}
+
+// c18ConfTarget lists the conf targets the construction entry is split over:
+// the small widths, the values around chainfee.MaxBlockTarget (1008), large
+// ones, and (thorough) every conf target 5..extra+4.
 func c18ConfTarget(extra int) uint32 {
-	special := []uint32{0, 1, 2, 3, 4, 7, 145, 1007, 1008, 1009, 2016, 4000000}
+	special := []uint32{0, 1, 2, 3, 4, 7, 145, 1007, 1008, 1009, 2016, 4000000, 4294967295}
 	k := vChoice("ct", len(special)+extra)
 	if k < len(special) {
 		return special[k]
@@ -69,29 +78,27 @@ func c18ConfTarget(extra int) uint32 {
 	return uint32(k-len(special)) + 5
 }
 
-// VerifC18New: construction through the estimator, any estimator answers.
-// Region: relay floor <= ceiling whenever the conf target is >= 1008 (the
-// complementary region is the subject of VerifC18NewFloorAboveCeiling).
-func VerifC18New() {
-	c18FeeFnConfig()
-	c18New(true, 0)
-}
+const (
+	c18RegionMain        = iota // ceiling >= 1, and relay floor <= ceiling when confTarget >= 1008
+	c18RegionFloorAbove         // confTarget >= 1008, relay floor > ceiling >= 1
+	c18RegionZeroCeiling        // ceiling == 0 (budget rate rounds to zero)
+)
+
+// VerifC18New: construction (estimator or caller-supplied start), any
+// estimator answers, on the main region.
+func VerifC18New() { c18New(c18RegionMain, 0) }
 
 // VerifC18NewT: thorough tier, additionally every conf target 5..148.
-func VerifC18NewT() {
-	c18FeeFnConfig()
-	c18New(true, 144)
-}
+func VerifC18NewT() { c18New(c18RegionMain, 144) }
 
-// VerifC18NewFloorAboveCeiling: the same entry without the region restriction.
-// On the unchanged tree this reports the CANDIDATE FINDING described in
-// NOTES.md (start rate above the ceiling for conf targets >= 1008).
-func VerifC18NewFloorAboveCeiling() {
-	c18FeeFnConfig()
-	c18New(false, 0)
-}
+// VerifC18FindFloorAboveCeiling / VerifC18FindZeroCeiling: the same oracle on
+// the two complementary regions. On the unchanged tree these report the
+// CANDIDATE FINDING described in NOTES.md (start rate above the ceiling).
+func VerifC18FindFloorAboveCeiling() { c18New(c18RegionFloorAbove, 0) }
+func VerifC18FindZeroCeiling()       { c18New(c18RegionZeroCeiling, 0) }
 
-func c18New(restrict bool, extra int) {
+func c18New(region int, extra int) {
+	c18FeeFnConfig()
 	ct := c18ConfTarget(extra)
 	end := chainfee.SatPerKWeight(vI64("end"))
 	est := &c18Est{
@@ -101,15 +108,30 @@ func c18New(restrict bool, extra int) {
 	}
 	vAssume(end >= 0 && int64(end) < c18MaxRate)
 	vAssume(est.rate >= 0 && est.relay >= 0)
-	if restrict {
+	given := false
+	switch region {
+	case c18RegionMain:
+		vAssume(end >= 1)
 		if ct >= 1008 {
 			vAssume(est.relay <= end)
 		}
-	} else {
-		vAssume(ct >= 1008 && est.relay > end)
+		given = vChoice("given", 2) == 1
+	case c18RegionFloorAbove:
+		vAssume(ct >= 1008 && est.relay > end && end >= 1)
+	case c18RegionZeroCeiling:
+		vAssume(end == 0 && ct > 1)
+	}
+	startOpt := fn.None[chainfee.SatPerKWeight]()
+	var givenStart chainfee.SatPerKWeight
+	if given {
+		// caller-supplied start rate: within the ceiling (the constructor's
+		// contract: "endingFeeRate specifies the max allowed fee rate").
+		givenStart = chainfee.SatPerKWeight(vI64("start"))
+		vAssume(givenStart >= 0 && givenStart <= end)
+		startOpt = fn.Some(givenStart)
 	}
 
-	l, err := NewLinearFeeFunction(end, ct, est, fn.None[chainfee.SatPerKWeight]())
+	l, err := NewLinearFeeFunction(end, ct, est, startOpt)
 
 	if ct <= 1 {
 		vReach("deadline-reached")
@@ -117,6 +139,7 @@ func c18New(restrict bool, extra int) {
 		vAssert(l.FeeRate() == end && l.startingFeeRate == end && l.endingFeeRate == end,
 			"confTarget<=1: the ceiling is used immediately")
 		vAssert(est.calls == 0, "confTarget<=1: estimator not consulted")
+		vAssert(c18Inv(l) && l.position == 0 && l.width == 0, "invariant established (width 0)")
 		return
 	}
 	if err != nil {
@@ -124,12 +147,13 @@ func c18New(restrict bool, extra int) {
 		switch {
 		case errors.Is(err, ErrZeroFeeRateDelta):
 			vReach("refused-zero-delta")
+			vAssert(ct != 2, "a zero delta is accepted when the width is 1")
 		case errors.Is(err, c18ErrEst):
 			vReach("refused-estimator-error")
-			vAssert(est.fail && ct < 1008, "estimator error reported only when the estimator failed")
+			vAssert(est.fail && ct < 1008 && !given, "estimator error reported only when the estimator was asked and failed")
 		case errors.Is(err, ErrFeePreferenceTooLow):
 			vReach("refused-below-relay")
-			vAssert(est.rate < est.relay, "ErrFeePreferenceTooLow only when the estimate is below the relay floor")
+			vAssert(est.rate < est.relay && !given, "ErrFeePreferenceTooLow only when the estimate is below the relay floor")
 		default:
 			vAssert(false, "unexpected construction error")
 		}
@@ -141,114 +165,185 @@ func c18New(restrict bool, extra int) {
 	// cap: never start above the ceiling
 	vAssert(l.startingFeeRate <= l.endingFeeRate, "start rate <= ceiling")
 	vAssert(l.endingFeeRate == end, "ceiling is the maximum handed in")
-	// floor: start at no less than the relay floor (when the ceiling allows it)
-	if est.relay <= end {
+	if given {
+		vAssert(l.startingFeeRate == givenStart && est.calls == 0, "caller-supplied start rate is used")
+	} else if est.relay <= end {
+		// floor: start at no less than the relay floor (when the ceiling allows it)
 		vAssert(l.startingFeeRate >= est.relay, "start rate >= relay floor")
 	}
-	vAssert(int64(l.deltaFeeRate) >= 0, "delta >= 0 (rate never decreases)")
-	vAssert(l.deltaFeeRate != 0 || l.width == 1, "zero delta only with width 1")
-	vAssert(l.currentFeeRate == l.startingFeeRate && l.FeeRate() == l.startingFeeRate, "current rate initialised to start")
-	vAssert(l.width == ct-1 && l.position == 0, "width = confTarget-1, position 0")
-	if ct < 1008 {
+	if !given && ct < 1008 {
 		vAssert(!est.fail, "estimator failure is not swallowed")
 	}
+	vAssert(l.width == ct-1 && l.position == 0, "width = confTarget-1, position 0")
+	vAssert(l.currentFeeRate == l.startingFeeRate && l.FeeRate() == l.startingFeeRate, "current rate initialised to start")
+	vAssert(l.deltaFeeRate != 0 || l.width == 1, "zero delta only with width 1")
+	// --- floating point from here on ---
+	vAssert(c18Inv(l), "invariant established: 0 <= start <= end < 2^40, 0 <= delta < 2^50")
+	vAssert(l.feeRateAtPosition(0) == l.currentFeeRate, "invariant established: current rate = rate(position 0)")
 }
 
-// c18Make builds a fee function through the real constructor with a
-// caller-supplied start rate (start <= end is the constructor's documented
-// contract for that parameter: "endingFeeRate specifies the max allowed fee
-// rate").
-func c18Make(w uint32) (*LinearFeeFunction, chainfee.SatPerKWeight, chainfee.SatPerKWeight) {
+// c18State builds an arbitrary fee-function state satisfying the invariant,
+// with concrete width and position.
+func c18State(w, p uint32) *LinearFeeFunction {
+	l := c18StateRaw(w, p)
+	l.currentFeeRate = l.feeRateAtPosition(p)
+	return l
+}
+
+func c18StateRaw(w, p uint32) *LinearFeeFunction {
+	l := &LinearFeeFunction{
+		startingFeeRate: chainfee.SatPerKWeight(vI64("start")),
+		endingFeeRate:   chainfee.SatPerKWeight(vI64("end")),
+		deltaFeeRate:    mSatPerKWeight(vI64("delta")),
+		width:           w,
+		position:        p,
+		estimator:       &c18Est{},
+	}
+	vAssume(c18Inv(l))
+	return l
+}
+
+// VerifC18Step: the inductive step. From ANY state satisfying the invariant
+// (width w <= W, position p <= w+1) ANY single operation -- Increment, or a
+// block beat IncreaseFeeRate(confTarget) with confTarget 0..w+2 (repeated,
+// consecutive or skipped heights, past the deadline) -- never lowers the
+// offered rate, keeps it <= ceiling, re-establishes the invariant, and puts
+// the rate at the ceiling when the deadline is at most one block away.
+func VerifC18Step() { c18Step(5) }
+
+// VerifC18StepT: thorough tier, W = 16.
+func VerifC18StepT() { c18Step(16) }
+
+func c18Step(maxW int) {
+	c18FeeFnConfig()
+	p := uint32(vChoice("p", maxW+2))
+	w := uint32(vChoice("w", maxW+1))
+	if p > w+1 || (w == 0 && p > 0) {
+		vAssume(false)
+	}
+	l := c18State(w, p)
+	prev := l.FeeRate()
+	end := l.endingFeeRate
+	if p >= w {
+		vAssert(prev == end, "invariant: at or past the last position the rate is the ceiling")
+	}
+	op := vChoice("op", int(w)+4)
+	var inc bool
+	var err error
+	if op == 0 {
+		inc, err = l.Increment()
+		if err == nil {
+			vReach("incremented")
+			vAssert(p < w && l.position == p+1, "Increment moves exactly one position, only before the end")
+		}
+	} else {
+		ct := uint32(op - 1)
+		inc, err = l.IncreaseFeeRate(ct)
+		if ct <= 1 {
+			vReach("deadline-minus-one")
+			vAssert(l.FeeRate() == end, "ceiling reached no later than one block before the deadline")
+		}
+	}
+	cur := l.FeeRate()
+	if err != nil {
+		vReach("max-position")
+		vAssert(errors.Is(err, ErrMaxPosition) && p >= w, "the only error is ErrMaxPosition, only at or past the last position")
+		vAssert(!inc && cur == prev && l.position == p, "ErrMaxPosition leaves the state")
+	}
+	vAssert(l.position >= p && l.position <= w+1, "position never moves back, stays <= width+1")
+	vAssert(cur == l.feeRateAtPosition(l.position), "invariant re-established: current rate = rate(position)")
+	vAssert(inc == (cur > prev), "the 'increased' result is true iff the rate went up")
+	// --- floating point ---
+	vAssert(cur >= prev && cur <= end, "offered rate never decreases and stays <= ceiling")
+	vReach("stepped")
+}
+
+// VerifC18Deadline: the deadline clause for ALL widths (symbolic width and
+// position, conf targets 0..2^32-1 at construction): a block beat with the
+// deadline at most one block away puts the rate at the ceiling (or reports
+// ErrMaxPosition, in which case it already was there). Integer-only: the
+// floating-point branch of feeRateAtPosition is unreachable here.
+func VerifC18Deadline() {
+	vOverflow("(*github.com/lightningnetwork/lnd/sweep.LinearFeeFunction).IncreaseFeeRate")
+	vOverflow("github.com/lightningnetwork/lnd/sweep.calcCurrentConfTarget")
+	l := &LinearFeeFunction{
+		startingFeeRate: chainfee.SatPerKWeight(vI64("start")),
+		endingFeeRate:   chainfee.SatPerKWeight(vI64("end")),
+		currentFeeRate:  chainfee.SatPerKWeight(vI64("cur")),
+		deltaFeeRate:    mSatPerKWeight(vI64("delta")),
+		width:           vU32("width"),
+		position:        vU32("position"),
+	}
+	// width = confTarget-1 with confTarget >= 2, or 0
+	vAssume(l.width <= 0xfffffffe)
+	vAssume(c18Inv(l))
+	// invariant "current = rate(position)" for positions at or past the end
+	if l.position >= l.width {
+		vAssume(l.currentFeeRate == l.endingFeeRate)
+	} else {
+		vAssume(l.currentFeeRate <= l.endingFeeRate)
+	}
+	height, deadline := vI32("height"), vI32("deadline")
+	vAssume(height >= 0 && deadline >= 0)
+	vAssume(int64(height) >= int64(deadline)-1)
+	ct := calcCurrentConfTarget(height, deadline)
+	vAssert(ct <= 1, "conf target <= 1 from one block before the deadline on")
+	p := l.position
+	_, err := l.IncreaseFeeRate(ct)
+	if err != nil {
+		vReach("already-at-end")
+		vAssert(errors.Is(err, ErrMaxPosition) && p >= l.width, "only ErrMaxPosition, only at the end")
+	} else {
+		vReach("moved")
+	}
+	vAssert(l.FeeRate() == l.endingFeeRate, "any width: ceiling reached no later than one block before the deadline")
+	vAssert(l.position >= p && l.position <= l.width+1, "any width: position monotone and bounded")
+}
+
+// VerifC18Kernel: feeRateAtPosition for an arbitrary state satisfying the
+// invariant (arbitrary delta), per position p: no integer overflow / float
+// conversion out of range inside, start <= rate(p) <= end,
+// rate(p) <= rate(p+1).
+func VerifC18Kernel() { c18Kernel(1, 8) }
+
+// VerifC18KernelT: thorough tier, every p < 1008 (16 shards of 63).
+func VerifC18KernelT() { c18Kernel(16, 63) }
+
+func c18Kernel(blocks, perBlock int) {
+	c18FeeFnConfig()
+	vOverflow("(*github.com/lightningnetwork/lnd/sweep.LinearFeeFunction).feeRateAtPosition")
+	vOverflow("(github.com/btcsuite/btcd/btcutil/v2.Amount).MulF64")
+	vOverflow("github.com/btcsuite/btcd/btcutil/v2.round")
+	p := uint32(vChoice("blk", blocks)*perBlock + vChoice("i", perBlock))
+	l := c18StateRaw(100000, 0)
+	start, end := l.startingFeeRate, l.endingFeeRate
+	rp := l.feeRateAtPosition(p)
+	vAssert(rp >= start && rp <= end, "any delta >= 0: start <= rate(p) <= ceiling")
+	rq := l.feeRateAtPosition(p + 1)
+	vAssert(rp <= rq, "any delta >= 0: rate(p) <= rate(p+1)")
+	vReach("done")
+}
+
+// VerifC18Walk: end-to-end statement on a fee function built by the real
+// constructor and driven by a sequence of block beats (heights may repeat or
+// be skipped) and Increments; the offered rate is observed after every step.
+func VerifC18Walk() { c18Walk(3, 2) }
+
+// VerifC18WalkT: thorough tier, widths 1..5, three steps.
+func VerifC18WalkT() { c18Walk(5, 3) }
+
+func c18Walk(maxW, steps int) {
+	c18FeeFnConfig()
+	w := uint32(vChoice("w", maxW) + 1)
 	start := chainfee.SatPerKWeight(vI64("start"))
 	end := chainfee.SatPerKWeight(vI64("end"))
 	vAssume(start >= 0 && start <= end && int64(end) < c18MaxRate)
 	l, err := NewLinearFeeFunction(end, w+1, &c18Est{}, fn.Some(start))
 	if err != nil {
-		vAssert(errors.Is(err, ErrZeroFeeRateDelta) && w != 1, "only a zero delta with width != 1 is refused")
-		vReach("refused-zero-delta")
 		vAssume(false)
 	}
-	vAssert(l.startingFeeRate == start && l.endingFeeRate == end && l.width == w, "constructor keeps start, end, width")
-	return l, start, end
-}
-
-// VerifC18Position: for every width w <= W and position p <= w of a fee
-// function built by the real constructor: start <= rate(p) <= end,
-// rate(p) <= rate(p+1), rate(0) = start, rate(w) = end.
-func VerifC18Position() { c18Position(1, 6) }
-
-// VerifC18PositionT: thorough tier, widths wblk*9+1 .. wblk*9+9 (wblk pinned
-// per shard, 16 shards: W = 144).
-func VerifC18PositionT() { c18Position(16, 9) }
-
-func c18Position(blocks, per int) {
-	c18FeeFnConfig()
-	w := uint32(vChoice("wblk", blocks)*per + vChoice("w", per) + 1)
-	l, start, end := c18Make(w)
-	vReach("constructed")
-	p := uint32(vChoice("p", int(w)+1))
-	if p > w {
-		vAssume(false)
-	}
-	r := l.feeRateAtPosition(p)
-	vAssert(r >= start, "rate(p) >= start")
-	vAssert(r <= end, "rate(p) <= ceiling")
-	if p == 0 {
-		vAssert(r == start, "rate(0) = start")
-	}
-	if p >= w {
-		vAssert(r == end, "rate(width) = ceiling")
-	}
-	r1 := l.feeRateAtPosition(p + 1)
-	vAssert(r <= r1, "rate(p) <= rate(p+1)")
-	vAssert(r1 <= end, "rate(p+1) <= ceiling")
-}
-
-// VerifC18Mono: monotonicity of feeRateAtPosition for an arbitrary delta
-// (independent of how delta was derived), positions p < q.
-func VerifC18Mono() { c18Mono(1, 8, 2) }
-
-// VerifC18MonoT: thorough tier, every p < 1008 (16 blocks of 63), q-p in 1..3.
-func VerifC18MonoT() { c18Mono(16, 63, 3) }
-
-func c18Mono(blocks, perBlock, steps int) {
-	c18FeeFnConfig()
-	start := chainfee.SatPerKWeight(vI64("start"))
-	end := chainfee.SatPerKWeight(vI64("end"))
-	delta := vI64("delta")
-	vAssume(start >= 0 && start <= end && int64(end) < c18MaxRate)
-	// delta = (end-start)*1000/width <= 2^40*1000 < 2^50
-	vAssume(delta >= 0 && delta < 1<<50)
-	blk := vChoice("blk", blocks)
-	step := uint32(vChoice("step", steps) + 1)
-	l := &LinearFeeFunction{
-		startingFeeRate: start, endingFeeRate: end, currentFeeRate: start,
-		width: 100000, deltaFeeRate: mSatPerKWeight(delta),
-	}
-	for i := 0; i < perBlock; i++ {
-		p := uint32(blk*perBlock + i)
-		rp, rq := l.feeRateAtPosition(p), l.feeRateAtPosition(p+step)
-		vAssert(rp <= rq, "rate(p) <= rate(q) for p < q, any delta >= 0")
-		vAssert(rp >= start && rq <= end, "start <= rate <= ceiling, any delta >= 0")
-	}
-	vReach("done")
-}
-
-// VerifC18Walk: a fee function built by the real constructor is driven by a
-// sequence of block arrivals (heights may be skipped or repeated, or the
-// caller uses Increment); after every step the offered rate is observed.
-func VerifC18Walk() { c18Walk(4, 2) }
-
-// VerifC18WalkT: thorough tier, widths 1..6, three steps.
-func VerifC18WalkT() { c18Walk(6, 3) }
-
-func c18Walk(maxW, steps int) {
-	c18FeeFnConfig()
-	w := uint32(vChoice("w", maxW) + 1)
-	l, start, end := c18Make(w)
 	const h0 = int32(800000)
 	deadline := h0 + int32(w) + 1
-	vAssert(calcCurrentConfTarget(h0, deadline) == w+1, "initial conf target")
 	prev := l.FeeRate()
 	vAssert(prev == start, "first offered rate is the start rate")
 	height := h0
@@ -257,45 +352,21 @@ func c18Walk(maxW, steps int) {
 		// repeats the height, k-1 > 1 skips heights), up to two blocks
 		// past the deadline.
 		op := vChoice("op", int(w)+4)
-		posBefore := l.position
-		var inc bool
-		var err error
 		if op == 0 {
-			inc, err = l.Increment()
-			if posBefore >= w {
-				vReach("max-position")
-				vAssert(errors.Is(err, ErrMaxPosition) && !inc, "Increment at the end returns ErrMaxPosition")
-				vAssert(l.FeeRate() == prev && l.position == posBefore, "ErrMaxPosition leaves the state")
-			} else {
-				vAssert(err == nil, "Increment before the end succeeds")
-				vAssert(l.position == posBefore+1, "Increment moves one position")
-			}
+			l.Increment()
 		} else {
 			height += int32(op - 1)
 			if height > deadline+2 {
 				vAssume(false)
 			}
-			ct := calcCurrentConfTarget(height, deadline)
-			inc, err = l.IncreaseFeeRate(ct)
-			if err != nil {
-				vReach("max-position-beat")
-				vAssert(errors.Is(err, ErrMaxPosition) && posBefore >= w, "IncreaseFeeRate fails only at the end")
-				vAssert(l.FeeRate() == prev && l.position == posBefore, "ErrMaxPosition leaves the state")
-			}
+			l.IncreaseFeeRate(calcCurrentConfTarget(height, deadline))
 			if height >= deadline-1 {
-				// one block before the deadline (or later): ceiling
 				vReach("deadline-minus-one")
-				vAssert(l.FeeRate() == end, "ceiling reached no later than one block before the deadline")
+				vAssert(l.FeeRate() == end, "walk: ceiling reached no later than one block before the deadline")
 			}
-			vAssert(l.position >= posBefore, "position never moves back")
 		}
 		cur := l.FeeRate()
-		vAssert(cur >= prev, "offered rate never decreases")
-		vAssert(cur <= end, "offered rate <= ceiling")
-		vAssert(inc == (cur > prev), "the 'increased' result is true iff the rate went up")
-		if l.position >= w {
-			vAssert(cur == end, "at the last position the rate is the ceiling")
-		}
+		vAssert(cur >= prev && cur <= end, "walk: offered rate never decreases and stays <= ceiling")
 		prev = cur
 	}
 	vReach("walked")
